@@ -58,6 +58,7 @@ def _post(result, args, kwargs, old):
         ctx.violation('tree_modified', 'the checker changed the tree: ' + str(sig_diff(old, after)), w)
     end = tuple(node.end_pos)
     seen = set()
+    lines = None
     for i in result:
         if not isinstance(i.code, int) or isinstance(i.code, bool):
             ctx.violation('issue_code', 'issue code %r is not an int' % (i.code,), w)
@@ -68,6 +69,16 @@ def _post(result, args, kwargs, old):
             ctx.violation('issue_negative_column', 'issue %s at %s..%s' % (i.code, s, e), w, code_=i.code)
         elif not ((1, 0) <= s <= e <= end):
             ctx.violation('issue_range', 'issue %s range %s..%s outside (1,0)..%s' % (i.code, s, e, end), w, code_=i.code)
+        else:
+            # inside the file also means: on an existing line, not beyond its end (the line break itself counts as one position)
+            if lines is None:
+                from parso.utils import split_lines
+                lines = split_lines(node.get_code(), keepends=True)
+            for what, (ln, col) in (('start', s), ('end', e)):
+                if ln > len(lines) or col > len(lines[ln - 1]):
+                    ctx.violation('issue_beyond_line_end', 'issue %s %s %s lies beyond the end of line %d (%d characters)' % (
+                        i.code, what, (ln, col), ln, len(lines[ln - 1]) if ln <= len(lines) else -1), w, code_=i.code)
+                    break
         k = (i.code, s)
         if k in seen:
             ctx.violation('issue_repeated', 'issue (%s, %s) reported twice' % k, w)
